@@ -4,18 +4,17 @@ import (
 	"fmt"
 	"os"
 
-	"kvqlverif/checks"
 	"kvqlverif/drive"
 	"kvqlverif/refstore"
 )
 
 func main() {
+	ps := []refstore.Pair{{K: "k1", V: "1"}, {K: "k2", V: "2"}, {K: "k3", V: "3"}}
 	for _, q := range os.Args[1:] {
-		st := refstore.New(checks.C18StoreForDebug())
-		o := drive.Run(q, st, drive.Mode{Size: 32, Cache: true})
-		fmt.Printf("%q status=%s rows=%d\n", q, o.Status(), len(o.Rows))
-		for _, l := range refstore.FormatLog(st.Log()) {
-			fmt.Println("  ", l)
+		for _, b := range []bool{false, true} {
+			st := refstore.New(ps)
+			o := drive.Run(q, st, drive.Mode{Batch: b, Size: 2, Cache: true})
+			fmt.Printf("%q batch=%v status=%s rows=%v damage=%v\n", q, b, o.Status(), o.Rows, st.ArenaDamage())
 		}
 	}
 }
